@@ -280,7 +280,7 @@ def writers_monotone(ctx, rep, rule):
                     is_true = isinstance(v, ast.Constant) and v.value is True
                     is_false = isinstance(v, ast.Constant) and v.value is False
                     if is_true:
-                        ok = f is r.WRAP
+                        ok = f is r.WRAP or f is r.WRAP_BODY
                         rep.check(ok, rule, site, f.qualname, "`%s`" % src(node),
                                   "a job is flagged running outside the window wrapper: is_running() is true "
                                   "for a job that does not hold a slot (or was never scheduled)")
@@ -300,7 +300,9 @@ def writers_monotone(ctx, rep, rule):
                                   "the task registry is cleared while a run is in progress: a finished job "
                                   "becomes idle again and loses its result")
                     else:
-                        ok = f is r.start_fn or f is r.RUN
+                        from .common import only_used_by
+                        ok = f is r.start_fn or f is r.RUN or \
+                            only_used_by(ctx, f, {r.start_fn.qualname, r.RUN.qualname})
                         rep.check(ok, rule, site, f.qualname, "`%s`" % src(node),
                                   "the task registry is written outside the start path")
     rep.need(rule, n, 3, "writers of the life-cycle attributes")
